@@ -1808,6 +1808,142 @@ theorem rewriteRaw_restrip (k : LoopCfg) (hk : StringLike k) (opener closer orig
     rw [← h, hacc]
     simp [pushStr]
 
+
+/-! ## words -/
+
+theorem wordsGo_cur (s cur : List Char) (hs : s.all isWs = true) : wordsGo s cur = if cur.isEmpty then [] else [cur.reverse] := by
+  induction s generalizing cur with
+  | nil => simp [wordsGo]
+  | cons c r ih =>
+    simp only [List.all_cons, Bool.and_eq_true] at hs
+    simp only [wordsGo, hs.1, if_true]
+    split
+    · rw [ih [] hs.2]; simp
+    · rw [ih [] hs.2]; simp
+
+/-- the general shape: the word being read (`cur`) continues into `a` -/
+theorem wordsGo_append_ws (a b : List Char) (w : Char) (hw : isWs w = true) (cur : List Char) :
+    wordsGo (a ++ w :: b) cur = wordsGo (a ++ [w]) cur ++ wordsGo b [] := by
+  induction a generalizing cur with
+  | nil =>
+    simp only [List.nil_append, wordsGo, hw, if_true]
+    split <;> simp
+  | cons c r ih =>
+    simp only [List.cons_append, wordsGo]
+    split
+    · split
+      · exact ih []
+      · simp [ih []]
+    · exact ih (c :: cur)
+
+theorem wordsGo_snoc_ws (a : List Char) (w : Char) (hw : isWs w = true) (cur : List Char) :
+    wordsGo (a ++ [w]) cur = wordsGo a cur := by
+  induction a generalizing cur with
+  | nil => simp [wordsGo, hw]
+  | cons c r ih =>
+    simp only [List.cons_append, wordsGo]
+    split
+    · split
+      · exact ih []
+      · simp [ih []]
+    · exact ih (c :: cur)
+
+/-- a text splits into words at a white-space character -/
+theorem words_append_ws (a b : List Char) (w : Char) (hw : isWs w = true) :
+    words (a ++ w :: b) = words a ++ words b := by
+  unfold words
+  rw [wordsGo_append_ws a b w hw, wordsGo_snoc_ws a w hw]
+
+theorem words_cons_ws (b : List Char) (w : Char) (hw : isWs w = true) : words (w :: b) = words b := by
+  have := words_append_ws [] b w hw
+  simpa [words, wordsGo] using this
+
+theorem words_ws_prefix (ws b : List Char) (h : ws.all isWs = true) : words (ws ++ b) = words b := by
+  induction ws with
+  | nil => rfl
+  | cons c r ih =>
+    simp only [List.all_cons, Bool.and_eq_true] at h
+    rw [List.cons_append, words_cons_ws _ _ h.1, ih h.2]
+
+theorem words_snoc_ws (a : List Char) (w : Char) (hw : isWs w = true) : words (a ++ [w]) = words a := by
+  have := words_append_ws a [] w hw
+  simpa [words, wordsGo] using this
+
+/-- the cut of a text next to a white-space character (before it, after it) or at its end keeps the words -/
+theorem words_take_drop (l : List Char) (n : Nat)
+    (h : l.length ≤ n ∨ (∃ c, l[n]? = some c ∧ isWs c = true) ∨ (1 ≤ n ∧ ∃ c, l[n - 1]? = some c ∧ isWs c = true)) :
+    words (l.take n) ++ words (l.drop n) = words l := by
+  rcases h with h | ⟨c, hc, hw⟩ | ⟨h1, c, hc, hw⟩
+  · rw [List.take_of_length_le h, List.drop_of_length_le h]; simp [words, wordsGo]
+  · conv => rhs; rw [← List.take_append_drop n l]
+    rw [drop_eq_cons_of_getElem? hc, words_append_ws _ _ _ hw, words_cons_ws _ _ hw]
+  · have hn : n - 1 + 1 = n := by omega
+    have htake : l.take n = l.take (n - 1) ++ [c] := by
+      have := take_succ_of_getElem? hc
+      rwa [hn] at this
+    have hl : l = l.take (n - 1) ++ c :: l.drop n := by
+      conv => lhs; rw [← List.take_append_drop n l, htake]
+      simp
+    rw [htake, words_snoc_ws _ _ hw]
+    conv => rhs; rw [hl, words_append_ws _ _ _ hw]
+
+/-- every boundary of the text is white space: no punctuation that `break_string` could break after -/
+def NoPunctBreak (input : List Char) : Prop :=
+  ∀ p c, input[p]? = some c → isValidLinebreak input p = true → isWs c = true
+
+/-- **One step of `break_string` keeps the words**, when the text offers no punctuation to break after:
+the words of the line followed by the words of what is left are the words of the input. -/
+theorem Step.words {input : List Char} (hnp : NoPunctBreak input) {line : List Char} {len : Nat}
+    (h : Step true input (.lineEnd line len)) : RF.StringFmt.words line ++ RF.StringFmt.words (input.drop len) = RF.StringFmt.words input := by
+  cases h with
+  | lineTrim m _ _ hmn h1 hn hblank _ hcut =>
+    -- `input.take len = input.take m ++ blanks`
+    by_cases hlt : m < len
+    · have hm : m < input.length := by omega
+      obtain ⟨c, hc⟩ : ∃ c, input[m]? = some c := ⟨input[m], List.getElem?_eq_getElem hm⟩
+      have hcb : isWs c = true := by
+        have hmem : c ∈ (input.take len).drop m := by
+          apply List.mem_of_getElem? (i := 0)
+          rw [List.getElem?_drop, List.getElem?_take]
+          simp [hlt, hc]
+        have := List.all_eq_true.mp (all_isWs_of_all_blank hblank) c hmem
+        exact this
+      have h2 : RF.StringFmt.words (input.drop m) = RF.StringFmt.words (input.drop len) := by
+        have : input.drop m = (input.take len).drop m ++ input.drop len := by
+          conv => lhs; rw [← List.take_append_drop len input]
+          rw [List.drop_append_of_le_length (by simp; omega)]
+        rw [this, words_ws_prefix _ _ (all_isWs_of_all_blank hblank)]
+      rw [← h2]
+      exact words_take_drop input m (Or.inr (Or.inl ⟨c, hc, hcb⟩))
+    · have hmeq : m = len := by omega
+      subst hmeq
+      rcases hcut with hlt' | hcs
+      · omega
+      · rcases hcs with hv | hnext
+        · have hl : m - 1 < input.length := by omega
+          refine words_take_drop input m (Or.inr (Or.inr ⟨h1, input[m - 1], List.getElem?_eq_getElem hl, ?_⟩))
+          exact hnp (m - 1) _ (List.getElem?_eq_getElem hl) hv
+        · have hm1 : m - 1 + 1 = m := by omega
+          rw [hm1] at hnext
+          by_cases hend : input.length ≤ m
+          · exact words_take_drop input m (Or.inl hend)
+          · have hm : m < input.length := by omega
+            exact words_take_drop input m (Or.inr (Or.inl ⟨input[m], List.getElem?_eq_getElem hm,
+              hnext _ (List.getElem?_eq_getElem hm)⟩))
+  | line _ hte _ _ _ _ => cases hte
+
+
+/-- `NoPunctBreak` as a computation -/
+def noPunctBreakB (input : List Char) : Bool :=
+  (List.range input.length).all (fun p => !isValidLinebreak input p || isWs (input.getD p ' '))
+
+theorem noPunctBreak_of_B {input : List Char} (h : noPunctBreakB input = true) : NoPunctBreak input := by
+  intro p c hc hv
+  have hp : p < input.length := (List.getElem?_eq_some_iff.mp hc).1
+  have := List.all_eq_true.mp h p (List.mem_range.mpr hp)
+  simp only [hv, Bool.not_true, Bool.false_or] at this
+  simpa [List.getD, hc] using this
+
 /-! ## from a `StringFormat` to the constants of the loop -/
 
 theorem all_isContWs_replicate_tab (n : Nat) : (List.replicate n '\t').all isContWs = true := by
